@@ -505,6 +505,56 @@ def render_fn(sf, item, d, drops, em, canary, take_opts=()):
             drops['D11 enumerate index used only in diagnostics dropped'] = drops.get('D11 enumerate index used only in diagnostics dropped', 0) + 1
         if n11 == 0:
             raise LostAnchor('%s: option unenumerate but no `for (i, ..) in ...enumerate()` loop' % item.name)
+    if 'tailcontinue' in opts:
+        # rule D12 (Verus: "for-loops do not yet support continue"): a `continue` that is the whole right-hand side of a
+        # match arm, where that match is the LAST statement of the body of the innermost enclosing `for` loop, is taken as
+        # `{}` (falling off the end of the loop body starts the next iteration: the same control flow).  The side condition
+        # is checked syntactically here; a `continue` anywhere else => the rule does not apply => undecided (exit 2).
+        loops12 = R.find_loops(src, mask, body_open + 1, body_close)
+        n12 = 0
+        for mm in re.finditer(r'(?<![A-Za-z0-9_])continue(?![A-Za-z0-9_])', src[body_open + 1:body_close]):
+            k = body_open + 1 + mm.start()
+            if not mask[k]:
+                continue
+            # innermost enclosing loop
+            encl = [(kw_i, kw, bo) for (kw_i, kw, bo) in loops12 if bo < k < R.match_delim(src, mask, bo)]
+            if not encl:
+                raise LostAnchor('%s: rule D12: `continue` outside a loop' % item.name)
+            kw_i, kw, bo = encl[-1]
+            bc = R.match_delim(src, mask, bo)
+            # innermost enclosing brace of the `continue`
+            depth = 0
+            m_open = None
+            q = k - 1
+            while q > bo:
+                if mask[q]:
+                    if src[q] in ')]}':
+                        depth += 1
+                    elif src[q] in '([{':
+                        if depth == 0:
+                            m_open = q
+                            break
+                        depth -= 1
+                q -= 1
+            ok = m_open is not None and src[m_open] == '{' and kw == 'for'
+            if ok:
+                m_close = R.match_delim(src, mask, m_open)
+                # the brace belongs to a `match <scrutinee> {` statement that starts right after the previous statement
+                stmt_lo = max(src.rfind(';', bo, m_open), src.rfind('}', bo, m_open), src.rfind('{', bo, m_open)) + 1
+                ok = re.match(r'\s*match\b', src[stmt_lo:m_open]) is not None
+                # ... whose closing brace is the last token of the loop body
+                ok = ok and R.skip_ws(src, mask, m_close + 1, bc + 1) == bc
+                # ... and the `continue` is the whole arm: `=> continue ,|}`
+                before = src[m_open:k].rstrip()
+                after = src[k + 8:m_close + 1].lstrip()
+                ok = ok and before.endswith('=>') and (after.startswith(',') or after.startswith('}'))
+            if not ok:
+                raise LostAnchor('%s: rule D12 does not apply to the `continue` at line %d' % (item.name, R.line_of(src, k)))
+            edits[k] = (k + 8, '{}      ')
+            n12 += 1
+            drops['D12 tail-position continue taken as {}'] = drops.get('D12 tail-position continue taken as {}', 0) + 1
+        if n12 == 0:
+            raise LostAnchor('%s: option tailcontinue but no `continue`' % item.name)
     splices = {}   # offset -> (text, unit_line) inserted *before* the char at offset, on own lines
     inline = {}    # offset -> text inserted inline
     if d:
